@@ -506,7 +506,7 @@ def _pkg_depth(name, f):
 
 
 def judge(layout, pl, jn, ch, jobs):
-    """Compare.  -> (fails, counters, classes)"""
+    """Compare.  -> (fails, counters, classes, samples)"""
     base = pl['base']
     fails = []
     cnt = {}
@@ -590,14 +590,14 @@ def judge(layout, pl, jn, ch, jobs):
                 if isinstance(o, dict):
                     fail(o['exc'][0], iid, dict(detail, traceback=o['exc'][1]))
                     continue
-                excs = {exp['A']['exc'], exp['B']['exc']} - {None}
+                excs = {exp[c]['exc'] for c in CONDS} - {None}
                 if pr[0] == 'bind' and pr[3] > 1 and os.path.basename(f) == '__init__.py' and (
                         os.path.exists(os.path.join(os.path.dirname(f), pr[1] + '.py'))
                         or os.path.isdir(os.path.join(os.path.dirname(f), pr[1]))):
                     inc('unjudged(bare use of a submodule\'s name inside its package __init__: '
                         'name lookup heuristic, not import resolution)')
                     continue
-                if beyond or ea[0] == 'beyond' or eb[0] == 'beyond':
+                if beyond or 'beyond' in (ea[0], eb[0], ec[0], ed[0]):
                     inc('unjudged(relative import beyond top-level package: documented heuristic)')
                     continue
                 if excs - {'ModuleNotFoundError', 'ImportError'} or \
@@ -776,14 +776,21 @@ def run(ctx):
         'every .py file of a tree contains `class ab: pass`; the issuing module\'s content is '
         'the import statement alone (jedi: unsaved buffer for that path; child: loader '
         'get_data override) so that the buffer and the imported source are the same text',
-        'an answer that differs between the two import orders of the child (submodule already '
-        'imported or not) is order dependent: jedi may give either; relative imports beyond '
-        'the top-level package (ImportError) are recorded without expectation; '
-        '`from x import n` failing with ImportError (x exists, n does not) expects nothing',
+        'the child executes every statement under four import orders (fresh; everything else '
+        'imported before; executed again after everything was imported; executed again with '
+        'the submodule attributes set by the import system removed).  When they agree jedi '
+        'must give exactly that answer, otherwise the answer depends on import-order side '
+        'effects and any of them is accepted; relative imports beyond the top-level package '
+        '(ImportError) are recorded without expectation; `from x import n` failing with '
+        'ImportError (x exists, n does not) expects nothing',
+        'a bare use (after a star import) of a name that is also a submodule of the issuing '
+        'package __init__ is not judged: jedi treats submodule names as module-level names of '
+        'a package, which is name lookup, not import resolution',
         'files that no dotted name imports (shadowed by a package/earlier root) are neither '
         'used as issuing modules nor judged for the derived-name clause',
-        'parso\'s in-memory trees of the tree\'s files are dropped before every Script (editing '
-        'history is C08/C09\'s subject)',
+        'parso\'s in-memory tree of the issuing file (the buffer) is dropped after every '
+        'program so that it is never served as the content of the file on disk (editing '
+        'history is C08/C09\'s subject); every tree lives in a fresh directory',
     ]
 
 
